@@ -419,18 +419,60 @@ package keeper
 //@ // store iteration is not modelled: these accessors are assumed total (no claim about what they return)
 //@ func (k Keeper) GetAllVestingTypes(ctx) (vestingTypes)
 //@   trusted
+//@ // store iteration is not modelled: the list of all traces is assumed to be the recorded ones (each element agrees with the
+//@ // ghost view; that every recorded address occurs exactly once is part of the assumption)
+//@ ghost trListN int
+//@ ghost trList [int]str
 //@ func (k Keeper) GetAllVestingAccountTrace(ctx) (list)
 //@   trusted
+//@   // $trList[0 .. $trListN) : the recorded addresses in store order
+//@   ensures len(list) == $trListN && (forall i: int :: {list[i].Address} 0 <= i && i < len(list) ==> list[i].Address == $trList[i])
+//@   ensures forall i: int :: {list[i].Address} 0 <= i && i < len(list) ==> $trFound[list[i].Address] && list[i].Genesis == $trGenesis[list[i].Address]
+//@     && list[i].FromGenesisPool == $trFromGenesisPool[list[i].Address] && list[i].FromGenesisAccount == $trFromGenesisAccount[list[i].Address]
+//@
+//@ // ---- C17: the vesting summaries are the sums recomputed from account state ----
+//@ // still-vesting amount of denom d of the continuous vesting account at address a, at unix time tu (the x/auth schedule)
+//@ spec func vestingAt(ov [str][str]int, st [str]int, en [str]int, a str, tu int, d str) int = ov[a][d] - cvaVested(ov[a][d], st[a], en[a], tu)
+//@ // sum over the first n listed traces of the still-vesting (lockedPart false) or locked-and-undelegated (lockedPart true) coins
+//@ // of those that are continuous vesting accounts and, for the genesis summary, genesis-derived
+//@ spec func sumAccounts(addr [int]str, o int, tag [str]int, ov [str][str]int, dv [str][str]int, st [str]int, en [str]int,
+//@     g [str]bool, gp [str]bool, ga [str]bool, genesisOnly bool, lockedPart bool, tu int, d str, n int) int =
+//@   n <= 0 ? 0 : sumAccounts(addr, o, tag, ov, dv, st, en, g, gp, ga, genesisOnly, lockedPart, tu, d, n - 1)
+//@     + (((!genesisOnly || g[addr[o + n - 1]] || gp[addr[o + n - 1]] || ga[addr[o + n - 1]]) && bech32ok(addr[o + n - 1]) && tag[fromBech32(addr[o + n - 1])] == accType("cva"))
+//@         ? (lockedPart ? vestingAt(ov, st, en, fromBech32(addr[o + n - 1]), tu, d) - min(vestingAt(ov, st, en, fromBech32(addr[o + n - 1]), tu, d), dv[fromBech32(addr[o + n - 1])][d])
+//@                       : vestingAt(ov, st, en, fromBech32(addr[o + n - 1]), tu, d))
+//@         : 0)
+//@ pred sumAccountsOf(genesisOnly, lockedPart, n) = sumAccounts($trList, 0, $accTag, $accOV, $accDV, $accStart, $accEnd,
+//@     $trGenesis, $trFromGenesisPool, $trFromGenesisAccount, genesisOnly, lockedPart, fdiv($blockTime, 1000000000), $vestingDenom, n)
+//@ func (k Keeper) createVestingsSummary(ctx, genesisOnly) (summary, err)
+//@   ensures summary != nil
+//@   ensures err == nil ==> !summary.VestingAllAmount.IsNil() && !summary.VestingInPoolsAmount.IsNil() && !summary.VestingInAccountsAmount.IsNil() && !summary.DelegatedVestingAmount.IsNil()
+//@   ensures [all] err == nil ==> summary.VestingAllAmount == summary.VestingInAccountsAmount + summary.VestingInPoolsAmount
+//@   ensures [pools] err == nil && !genesisOnly ==> summary.VestingInPoolsAmount == $bal[modaddr("cfevesting")][$vestingDenom]
+//@   ensures [accounts] err == nil ==> summary.VestingInAccountsAmount == sumAccountsOf(genesisOnly, false, $trListN)
+//@   ensures [delegated] err == nil ==> summary.DelegatedVestingAmount == summary.VestingInAccountsAmount - sumAccountsOf(genesisOnly, true, $trListN)
+//@   prop C17
+//@ loop Keeper.createVestingsSummary#1
+//@   invariant 0 <= \i && \i <= len(allAcc)
+//@   invariant !allVestingInAccounts.IsNil() && allVestingInAccounts == sumAccountsOf(genesisOnly, false, \i)
+//@   invariant !allLockedNotDelegated.IsNil() && allLockedNotDelegated == sumAccountsOf(genesisOnly, true, \i)
 
 //@ // ---- C20: entry points under the no-panic sweep (no functional claim here: they must not panic for any field values) ----
 //@ func (k Keeper) GenesisVestingsSummary(goCtx, req) (r0, r1)
-//@   prop C20x
+//@   ensures req != nil && r1 == nil ==> r0 != nil && r0.VestingInAccountsAmount == sumAccountsOf(true, false, $trListN)
+//@     && r0.DelegatedVestingAmount == r0.VestingInAccountsAmount - sumAccountsOf(true, true, $trListN)
+//@     && r0.VestingAllAmount == r0.VestingInAccountsAmount + r0.VestingInPoolsAmount
+//@   prop C17 C20x
 //@ func (k Keeper) Params(c, req) (r0, r1)
 //@   prop C20
 //@ func (k Keeper) VestingType(goCtx, req) (r0, r1)
 //@   prop C20x
 //@ func (k Keeper) VestingsSummary(goCtx, req) (r0, r1)
-//@   prop C20x
+//@   ensures req != nil && r1 == nil ==> r0 != nil && r0.VestingInAccountsAmount == sumAccountsOf(false, false, $trListN)
+//@     && r0.DelegatedVestingAmount == r0.VestingInAccountsAmount - sumAccountsOf(false, true, $trListN)
+//@     && r0.VestingAllAmount == r0.VestingInAccountsAmount + r0.VestingInPoolsAmount
+//@     && r0.VestingInPoolsAmount == $bal[modaddr("cfevesting")][$vestingDenom]
+//@   prop C17 C20x
 //@ func (k msgServer) CreateVestingAccount(goCtx, msg) (r0, r1)
 //@   requires msg != nil
 //@   prop C20
